@@ -2,6 +2,7 @@
 property's id so each evidence file is self-contained)."""
 import ast
 from sa.lib import *
+from sa import lib as _lib
 from sa.dataflow import cmp_key, cmp_atoms
 from sa.resolve import walk_function
 
@@ -72,7 +73,7 @@ def allocation_filters(ck, an, name_prefix):
 def sub_returns_allocation(ck, an, name_prefix):
     fa = an.fa("_Allocation.__sub__")
     rets = returns_in(fa)
-    ok = bool(rets) and all(isinstance(r.value, ast.Call) and fa.sym.canon(r.value.func) in ("type(self)", "self.__class__") for r in rets)
+    ok = bool(rets) and all(isinstance(deref(fa, r.value)[0], ast.Call) and fa.sym.canon(deref(fa, r.value)[0].func, deref(fa, r.value)[1]) in ("type(self)", "self.__class__") for r in rets)
     ck.check(ok, "IDIOM", f"{name_prefix}.sub-refilters", fa.f.short, fa.f.loc, "__sub__ builds its result through the class constructor (zero differences are dropped)",
              f"__sub__ returns {[ast.unparse(r.value)[:40] for r in rets]} (not re-filtered)", construct="return cls(mapping)")
 
@@ -218,8 +219,8 @@ def contract_spec_table(ck, an):
     fc = an.prog.cls("FutureChain")
     for attr in ("multiplier", "margin_requirement"):
         f = fc.methods.get(attr)
-        r = [ast.unparse(x.value) for x in returns_in(an.fa(f))] if f is not None else []
-        ck.check(r == [f"self.contracts[0].{attr}"], "ARGFLOW", "S0.chain-spec-delegates", f"FutureChain.{attr}", fc.loc, f"the chain's {attr} is its contracts' {attr}", f"FutureChain.{attr} returns {r}", construct=f"FutureChain.{attr}")
+        r = ret_canons(an.fa(f)) if f is not None else []
+        ck.check(f is not None and r == [_lib.specv(an.fa(f), f"self.contracts[0].{attr}").key()], "ARGFLOW", "S0.chain-spec-delegates", f"FutureChain.{attr}", fc.loc, f"the chain's {attr} is its contracts' {attr}", f"FutureChain.{attr} returns {r}", construct=f"FutureChain.{attr}")
 
 
 DICT_API = {"__contains__", "__getitem__", "__setitem__", "__delitem__", "__iter__", "__len__", "__eq__", "__ne__", "__hash__", "get", "items", "keys", "values", "copy", "pop", "popitem", "update", "setdefault", "clear", "fromkeys", "__missing__",
